@@ -79,19 +79,11 @@ def Table.noMergeablePair (t : Table) : Bool :=
   (Table.groups t).all fun idx => allPairs (unmergeable (classForce t idx)) (classLocs t idx)
 
 theorem plain_class (t : Table) (hp : Table.plain t = true) (idx : List Nat) (hi : idx ∈ Table.groups t) :
-    (idx.length = 1 ∧ ∀ l ∈ classLocs t idx, l.isJoined = false) ∨
-      (∀ l ∈ classLocs t idx, l.isRanged = true) := by
+    idx.length = 1 ∨ (∀ l ∈ classLocs t idx, l.isRanged = true) := by
   obtain ⟨k, hk, rfl⟩ := List.mem_map.mp hi
-  simp only [Table.plain, List.all_eq_true, Bool.or_eq_true, Bool.and_eq_true, Bool.not_eq_true',
-    beq_iff_eq] at hp
+  simp only [Table.plain, List.all_eq_true, Bool.or_eq_true, beq_iff_eq] at hp
   by_cases h1 : (Table.memberIdx t k).length = 1
-  · left
-    refine ⟨h1, ?_⟩
-    intro l hl
-    obtain ⟨i, hi', f, hf, rfl⟩ := mem_classLocs t _ l hl
-    rcases hp f (List.mem_of_getElem? hf) with h | h
-    · cases hl' : f.loc <;> simp [hl', isRanged, isJoined] at h ⊢
-    · exact h.1
+  · exact Or.inl h1
   · right
     intro l hl
     obtain ⟨i, hi', f, hf, rfl⟩ := mem_classLocs t _ l hl
@@ -102,9 +94,21 @@ theorem plain_class (t : Table) (hp : Table.plain t = true) (idx : List Nat) (hi
     · exact h
     · exfalso
       apply h1
-      have := h.2
-      simp only [Table.classSize, hfk] at this
-      exact this
+      simp only [Table.classSize, hfk] at h
+      exact h
+
+/-- a plain table never gets a `nil` location -/
+theorem noNil_of_plain (t : Table) (hp : Table.plain t = true) :
+    (Table.groups t).any (classNil t) = false := by
+  rw [List.any_eq_false]
+  intro idx hi
+  simp only [classNil, Bool.and_eq_true, decide_eq_true_eq, not_and, List.isEmpty_iff]
+  intro hc
+  rcases plain_class t hp idx hi with h1 | hr
+  · have := classN_pos t idx; omega
+  · exact (classP_of_no_join t idx hi fun l hl => by
+      have := hr l hl
+      cases l <;> simp [isRanged, isJoined] at this ⊢).1
 
 theorem pushAllD_single (d : Nat) (l : Loc) (f : Bool) (h : l.isJoined = false) :
     (pushAllD d [] [l] f).length = 1 := by
@@ -118,23 +122,13 @@ theorem pushAllD_single (d : Nat) (l : Loc) (f : Bool) (h : l.isJoined = false) 
 theorem sortLocs_single (l : Loc) : sortLocs [l] = [l] := rfl
 
 /-- **(c)**: in a plain table without a fusable pair no class is reduced -/
-theorem classP_length_of_noMergeablePair (t : Table) (hp : Table.plain t = true)
+theorem not_reduced_of_noMergeablePair (t : Table) (hp : Table.plain t = true)
     (hm : Table.noMergeablePair t = true) (idx : List Nat) (hi : idx ∈ Table.groups t) :
-    (classP t idx).length = idx.length := by
+    idx.length ≤ classN t idx := by
   have hlt := groups_lt t idx hi
   have hlen := classLocs_length t idx hlt
-  rcases plain_class t hp idx hi with ⟨h1, hj⟩ | hr
-  · -- a single member
-    have : ∃ l, classLocs t idx = [l] := by
-      cases hc : classLocs t idx with
-      | nil => rw [hc] at hlen; simp at hlen; omega
-      | cons a as =>
-        cases as with
-        | nil => exact ⟨a, rfl⟩
-        | cons b bs => rw [hc] at hlen; simp at hlen; omega
-    obtain ⟨l, hl⟩ := this
-    simp only [classP, pushedOf, hl, sortLocs_single, pushAll, List.length_reverse]
-    rw [pushAllD_single _ _ _ (hj l (by simp [hl])), h1]
+  rcases plain_class t hp idx hi with h1 | hr
+  · have := classN_pos t idx; omega
   · -- forward ranges, no fusable pair
     simp only [Table.noMergeablePair, List.all_eq_true] at hm
     have hpw := (allPairs_iff _ _).mp (hm idx hi)
@@ -147,11 +141,18 @@ theorem classP_length_of_noMergeablePair (t : Table) (hp : Table.plain t = true)
       ((sortLocs_perm _).pairwise_iff (fun {a b} h => hsym a b h)).mpr hpw
     have := pushAllD_unmerged (pushFuel - 1) (classForce t idx) (sortLocs (classLocs t idx)) []
       (by simp) (fun y hy => hr y ((sortLocs_perm _).mem_iff.mp hy)) (by simpa using hpw')
-    simp only [classP, pushedOf, pushAll, List.length_reverse]
     have e : pushFuel - 1 + 1 = pushFuel := rfl
     rw [e] at this
-    rw [this]
-    simp [sortLocs_length, hlen]
+    have hpl : (classP t idx).length = idx.length := by
+      simp only [classP, pushedOf, pushAll, List.length_reverse]
+      rw [this]
+      simp [sortLocs_length, hlen]
+    have hne : classP t idx ≠ [] := by
+      intro e'
+      rw [e'] at hpl
+      exact Table.groups_ne_nil t idx hi (List.length_eq_zero_iff.mp hpl.symm)
+    rw [classN_of_ne_nil hne, hpl]
+    exact Nat.le_refl _
 
 /-! ### what is fused: chains of abutting ranges -/
 
